@@ -210,6 +210,7 @@ def c_gate(sink_close=False):
     h.ensure("ens.pass", z3.Implies(en, z3.And(h.v(d.source.valid) == h.v(d.sink.valid), tok(h, d.source) == tok(h, d.sink), h.v(d.sink.ready) == h.v(d.source.ready))))
     h.ensure("ens.block", z3.Implies(z3.Not(en), z3.Not(b(h.v(d.source.valid)))))
     if not sink_close: h.ensure("ens.block.ready", z3.Implies(z3.Not(en), z3.Not(b(h.v(d.sink.ready)))))
+    else: h.ensure("ens.drain.ready", z3.Implies(z3.Not(en), b(h.v(d.sink.ready))))                  # sink_ready_when_disabled: tokens offered while disabled are drained, not forwarded
     producer_holds(h, d.sink)
     p_en = h.prev("en", h.v(d.enable)); p_stall = h.prev("stall", bv1(z3.And(b(h.v(d.source.valid)), z3.Not(b(h.v(d.source.ready))))))
     h.assume(z3.Implies(b(p_stall), h.v(d.enable) == p_en), "configuration input (Gate.enable) held while an offer is pending on the port it steers")
